@@ -1,3 +1,4 @@
+CONSTANT PopLast = FALSE
 CONSTANT AsFoundFold = FALSE
 INIT Init
 NEXT Next
